@@ -140,7 +140,7 @@ var _ uuid.UUID
 
 // update = replace the vector, merge metadata (new keys win, old keys are kept)
 //@ func (*storage.partition).updateValue
-//@ props C02 C04 C11 C12
+//@ props C02 C04 C11 C12 C01
 //@ safety C12
 //@ ghost notified int = 0
 //@ ghost outcome interface{} = nil
@@ -313,7 +313,7 @@ var _ uuid.UUID
 //@ invariant [monotone] forall j uuid.UUID :: !old(live(pix(this), j)) ==> !live(pix(this), j)
 
 //@ func (*storage.partition).batchUpdateValue
-//@ props C02 C04 C11 C12
+//@ props C02 C04 C11 C12 C01
 //@ safety C12
 //@ ghost notified int = 0
 //@ ghost outcome interface{} = nil
@@ -623,7 +623,7 @@ var _ uuid.UUID
 
 // collector: spawned workers == real messages consumed, or an error is returned; result ascending and at most k
 //@ func (*storage.Dataset).Search
-//@ props C09
+//@ props C09 C01
 //@ safety C12
 //@ allocbound C12
 //@ ghost spawned int = 0
@@ -683,7 +683,7 @@ var _ uuid.UUID
 //@ ensures [absent] !isnil(ret1) ==> ret1 == PartitionNotFoundErr && ret0 == nil
 
 //@ func (*storage.Dataset).SearchPartitions
-//@ props C09
+//@ props C09 C01
 //@ safety C12
 //@ allocbound C12
 //@ ghost spawned int = 0
